@@ -2,7 +2,8 @@
 Model of the docking bookkeeping of `thermosteam/network.py`
 (`StreamSequence`, `AbstractInlets`, `AbstractOutlets`, `AbstractStream.disconnect_*`,
 pipe notation, `AbstractUnit.disconnect / insert / take_place_of / replace_with`,
-`Connection.reconnect`).  Core Lean only (no Mathlib) so that it can be compiled
+`Connection.reconnect` incl. its `_owner` branch, `InletPort / OutletPort / StreamPorts`,
+unit construction with `ins=None`, `()`, a list, a single stream or a single ID).  Core Lean only (no Mathlib) so that it can be compiled
 into the line-protocol driver.
 
 Objects are ids (`Nat`).  A *side* is either the inlet side (port lists are the
@@ -238,6 +239,8 @@ structure World where
   nS : Nat
   nU : Nat
   pre : Bool
+  /-- `unit._owner` (an auxiliary unit's owner; only `Connection.reconnect` looks at it) -/
+  owner : Nat → Option Nat := fun _ => none
 
 def Side.init : Side :=
   { loc := fun _ => none, lst := fun _ => [], fixed := fun _ => false, size := fun _ => 0 }
@@ -251,6 +254,9 @@ inductive Which where | i | o
 def World.get (w : World) : Which → SW
   | .i => ⟨w.ins, w.nS, w.pre⟩
   | .o => ⟨w.outs, w.nS, w.pre⟩
+
+def World.side (w : World) : Which → Side
+  | .i => w.ins | .o => w.outs
 
 def World.put (w : World) : Which → SW → World
   | .i, r => { w with ins := r.sd, nS := r.next, pre := r.pre }
@@ -281,6 +287,8 @@ inductive PortsArg where
   | fresh
   /-- an explicit list of items. -/
   | given (l : List Item)
+  /-- a single stream object (or placeholder object) or a single string ID: `ins=feed`, `ins='ID'`. -/
+  | single (it : Item)
 
 /-- `[dock(Stream()) for i in range(size)]` -/
 def World.freshStreams (w : World) (k : Which) (u : Nat) (acc : List Nat) : Nat → World × List Nat
@@ -308,6 +316,27 @@ def World.loadItems (w : World) (k : Which) (u : Nat) (fx : Bool) (acc : List Na
     let (w1, s) := w.newStream
     World.loadItems (w1.put k ((w1.get k).dock u s)) k u fx (s :: acc) r
 
+/-- The part of `StreamSequence.__init__` that loads an explicit list of items. -/
+def World.loadGiven (w : World) (k : Which) (u n : Nat) (fx : Bool) (l : List Item) :
+    Except Err World :=
+  if fx then
+    if n < l.length then .error .fixedSize
+    else do
+      -- `_initialize_missing_streams(); _streams[:N] = [redock(i) | dock(Stream(i)) ...]`
+      let sw := w.get k
+      let (sw1, ms) := sw.newMissings u n
+      let w := w.put k { sw1 with sd := sw1.sd.setLst u ms }
+      let (w1, ss) ← w.loadItems k u true [] l
+      -- the first `N` placeholders are overwritten: from here on they are unreachable (no port
+      -- list holds them and nobody was handed one), so their stale pointer is unobservable; the
+      -- model clears it, which lets the invariant speak about every allocated id
+      let sw := (w1.get k).undockAll (((w1.get k).sd.lst u).take ss.length)
+      .ok (w1.put k { sw with sd := sw.sd.setLst u (ss ++ (sw.sd.lst u).drop ss.length) })
+  else do
+    let (w1, ss) ← w.loadItems k u false [] l
+    let sw := w1.get k
+    .ok (w1.put k { sw with sd := sw.sd.setLst u ss })
+
 /-- `StreamSequence.__init__`. -/
 def World.initSeq (w : World) (k : Which) (u n : Nat) (fx : Bool) (arg : PortsArg) :
     Except Err World := do
@@ -331,23 +360,13 @@ def World.initSeq (w : World) (k : Which) (u n : Nat) (fx : Bool) (arg : PortsAr
     -- constructor list is outside the documented use: the code would take it for an ID)
     let given := l.filterMap fun | .strm s => some s | _ => none
     let w := { w with pre := w.pre && given.Nodup && given.all w.real }
-    if fx then
-      if n < l.length then .error .fixedSize
-      else do
-        -- `_initialize_missing_streams(); _streams[:N] = [redock(i) | dock(Stream(i)) ...]`
-        let sw := w.get k
-        let (sw1, ms) := sw.newMissings u n
-        let w := w.put k { sw1 with sd := sw1.sd.setLst u ms }
-        let (w1, ss) ← w.loadItems k u true [] l
-        -- the first `N` placeholders are overwritten: from here on they are unreachable (no port
-        -- list holds them and nobody was handed one), so their stale pointer is unobservable; the
-        -- model clears it, which lets the invariant speak about every allocated id
-        let sw := (w1.get k).undockAll (((w1.get k).sd.lst u).take ss.length)
-        .ok (w1.put k { sw with sd := sw.sd.setLst u (ss ++ (sw.sd.lst u).drop ss.length) })
-    else do
-      let (w1, ss) ← w.loadItems k u false [] l
-      let sw := w1.get k
-      .ok (w1.put k { sw with sd := sw.sd.setLst u ss })
+    w.loadGiven k u n fx l
+  | .single it =>
+    -- `_initialize_missing_streams(); _streams[0] = redock(stream) | dock(Stream(ID))` (fixed size:
+    -- an empty list has no port 0) / `_streams = [redock(stream) | dock(Stream(ID))]`: from there on
+    -- exactly the list form with one item.  Placeholder objects are accepted here (`stream_types`).
+    if fx && n == 0 then .error .indexError
+    else w.loadGiven k u n fx [it]
 
 /-- `AbstractUnit(ID, ins, outs)` for a class with `_N_ins = ni`, … -/
 def World.newUnit (w : World) (ni : Nat) (fi : Bool) (ai : PortsArg)
@@ -463,15 +482,59 @@ def World.replaceWithNone (w : World) (u : Nat) : Except Err World := do
   let w2 := w1.put .i ((w1.get .i).empty u)
   .ok (w2.put .o ((w2.get .o).empty u))
 
+/-- `getattr(b, '_owner', None) is a`: the (auxiliary) unit of port `b` is owned by the unit of port `a`. -/
+def World.owns (w : World) (a b : Option (Nat × Nat)) : Bool :=
+  match a, b with
+  | some (ua, _), some (ub, _) => w.owner ub == some ua
+  | _, _ => false
+
+/-- one end of `Connection.reconnect`: assign the stream to the recorded port (unless the connection
+is one between an auxiliary unit and its owner: `skip`), or disconnect that end if there was no unit -/
+def World.reconHalf (w : World) (k : Which) (p : Option (Nat × Nat)) (skip : Bool) (s : Nat) :
+    Except Err World :=
+  match p with
+  | some (u, i) => if skip then .ok w else w.on k (·.setStream u i s)
+  | none => w.on k (·.disconnect s)
+
 /-- `Connection(source, source_index, stream, sink_index, sink).reconnect()`. -/
 def World.reconnect (w : World) (src : Option (Nat × Nat)) (s : Nat) (snk : Option (Nat × Nat)) :
     Except Err World := do
-  let w1 ← match src with
-    | some (u, i) => w.on .o (·.setStream u i s)
-    | none => w.on .o (·.disconnect s)
-  match snk with
-  | some (u, i) => w1.on .i (·.setStream u i s)
-  | none => w1.on .i (·.disconnect s)
+  let w1 ← w.reconHalf .o src (w.owns src snk) s
+  w1.reconHalf .i snk (w.owns snk src) s
+
+/-- `InletPort.from_inlet(x).set_stream(s)` / `OutletPort.from_outlet(x).set_stream(s)`: the port
+that holds `x` now gets `s`. -/
+def World.portFrom (w : World) (k : Which) (x s : Nat) : Except Err World :=
+  match (w.side k).loc x with
+  | none => .error .valueError      -- "stream … is not an inlet to any unit"
+  | some v => w.on k (·.replace v x s)
+
+/-- the ports of `StreamPorts.from_inlets(xs)` / `from_outlets(xs)`: (unit, index) of every `x`, all
+resolved before anything is assigned -/
+def World.resolvePorts (w : World) (k : Which) : List Nat → Except Err (List (Nat × Nat))
+  | [] => .ok []
+  | x :: xs =>
+    match (w.side k).loc x with
+    | none => .error .valueError
+    | some v =>
+      match ((w.side k).lst v).idxOf? x with
+      | none => .error .valueError
+      | some i => do
+        let r ← w.resolvePorts k xs
+        .ok ((v, i) :: r)
+
+/-- `for port, s in zip(ports, streams): port.set_stream(s)` -/
+def World.setPorts (w : World) (k : Which) : List ((Nat × Nat) × Nat) → Except Err World
+  | [] => .ok w
+  | ((v, i), s) :: r => do
+    let w1 ← w.on k (·.setStream v i s)
+    w1.setPorts k r
+
+/-- `StreamPorts.from_inlets(xs)[:] = ss` (`from_outlets` on the outlet side). -/
+def World.streamPorts (w : World) (k : Which) (xs ss : List Nat) : Except Err World := do
+  let ports ← w.resolvePorts k xs
+  if ss.length ≠ ports.length then .error .indexError
+  else w.setPorts k (ports.zip ss)
 
 /-- `unit.insert(stream, inlet=…, outlet=…)`.  An inlet given as an index is looked
 up in `outs` (`inlet = self.outs[inlet]`), mirrored as the code has it. -/
@@ -547,15 +610,23 @@ inductive Op where
   | insertUnit (u s : Nat) (inlet outlet : Option PortRef)
   /-- `U - V`: `V.ins[:] = U.outs` -/
   | pipeUU (u v : Nat)
-
-def World.side (w : World) : Which → Side
-  | .i => w.ins | .o => w.outs
+  /-- `seq[-j] = s` (`j ≥ 1`) -/
+  | setBack (k : Which) (u j : Nat) (s : Option Nat)
+  /-- `seq.pop(-j)` (`j ≥ 1`) -/
+  | popBack (k : Which) (u j : Nat)
+  /-- `unit._owner = v` -/
+  | setOwner (u : Nat) (v : Option Nat)
+  /-- `InletPort.from_inlet(x).set_stream(s)` / `OutletPort.from_outlet(x).set_stream(s)` -/
+  | portFrom (k : Which) (x s : Nat)
+  /-- `StreamPorts.from_inlets(xs)[:] = ss` / `from_outlets` -/
+  | streamPorts (k : Which) (xs ss : List Nat)
 
 def PortRef.ids : PortRef → List Nat
   | .idx _ => [] | .strm s => [s]
 
 def PortsArg.ids : PortsArg → List Nat
   | .given l => l.filterMap fun | .strm s => some s | _ => none
+  | .single (.strm s) => [s]
   | _ => []
 
 /-- The stream objects an operation mentions. -/
@@ -584,6 +655,11 @@ def Op.ids : Op → List Nat
   | .insertUnit _ s inlet outlet =>
     s :: ((inlet.map PortRef.ids).getD [] ++ (outlet.map PortRef.ids).getD [])
   | .pipeUU _ _ => []
+  | .setBack _ _ _ s => s.toList
+  | .popBack _ _ _ => []
+  | .setOwner _ _ => []
+  | .portFrom _ x s => [x, s]
+  | .streamPorts _ xs ss => xs ++ ss
 
 /-- The unit objects an operation mentions (a unit cannot be referred to before it is constructed). -/
 def Op.units : Op → List Nat
@@ -609,6 +685,11 @@ def Op.units : Op → List Nat
   | .reconnect src _ snk => (src.map (·.1)).toList ++ (snk.map (·.1)).toList
   | .insertUnit u _ _ _ => [u]
   | .pipeUU u v => [u, v]
+  | .setBack _ u _ _ => [u]
+  | .popBack _ u _ => [u]
+  | .setOwner u v => u :: v.toList
+  | .portFrom _ _ _ => []
+  | .streamPorts _ _ _ => []
 
 def World.exec (w : World) : Op → Except Err World
   | .newStream => .ok w.newStream.1
@@ -642,6 +723,25 @@ def World.exec (w : World) : Op → Except Err World
   | .reconnect src s snk => w.reconnect src s snk
   | .insertUnit u s inlet outlet => w.insertUnit u s inlet outlet
   | .pipeUU u v => w.on .i (·.setStreams v 0 (w.ins.lst v).length ((w.outs.lst u).map some))
+  | .setBack k u j (some s) =>
+    -- a negative index inside the list addresses from the back; outside it is an IndexError
+    -- (only an index `>= len` extends a variable-size list)
+    if 0 < j ∧ j ≤ ((w.side k).lst u).length then
+      w.on k (·.setStream u (((w.side k).lst u).length - j) s)
+    else .error .indexError
+  | .setBack k u j none =>
+    if 0 < j ∧ j ≤ ((w.side k).lst u).length then
+      w.on k fun sw => let (sw1, m) := sw.newMissing u
+                       sw1.setStream u (((w.side k).lst u).length - j) m
+    else .error .indexError
+  | .popBack k u j =>
+    if 0 < j ∧ j ≤ ((w.side k).lst u).length then do
+      let (sw, _) ← (w.get k).pop u (((w.side k).lst u).length - j)
+      .ok (w.put k sw)
+    else .error .indexError
+  | .setOwner u v => .ok { w with owner := fun x => if x = u then v else w.owner x }
+  | .portFrom k x s => w.portFrom k x s
+  | .streamPorts k xs ss => w.streamPorts k xs ss
 
 /-- One operation.  An operation can only mention stream and unit objects that exist
 (ids below the allocation counters); anything else is outside the property's
